@@ -377,7 +377,7 @@ def _decode_lines(fid, l_0, platform, only_first, open_is_dummy=False):
         l_2 = _decode(next(fid))
         tle = _merge_tle_from_two_lines(l_1, l_2)
     elif l_0.strip().startswith(designator):
-        if (platform in SATELLITES or not only_first) or open_is_dummy:
+        if (platform in SATELLITES or not only_first) or (open_is_dummy and not platform):
             l_1 = l_0
             l_2 = _decode(next(fid))
             tle = _merge_tle_from_two_lines(l_1, l_2)
